@@ -253,7 +253,7 @@ pub fn run(ctx: &mut Ctx) {
     ctx.run_random_brief(StreamCfg::new("row_pattern_ranges", CLASSES, cases), || range_strategy(8), check_range, |c| json!({"combos": c.combos.len()}));
     ctx.extra.insert("exhaustive_over".into(), json!(format!("all 3^6 patterns x 13 pockets, all 3^4 x 78 suited, all 3^12 x {} offsuit rank pairs ({})", chosen.len(), chosen.iter().map(|c| c.name()).collect::<Vec<_>>().join(","))));
     if ctx.tier == Tier::Thorough && !ctx.failed() {
-        crate::fuzzrun::campaign(ctx, "fz_range", 3000, 16, 400);
+        crate::fuzzrun::campaign(ctx, "fz_range", 1000, 16, 400);
     }
 }
 
